@@ -28,7 +28,7 @@ _WRAPPERS = {'ImplicitCastExpr', 'ParenExpr', 'MaterializeTemporaryExpr',
 
 
 class N(object):
-    __slots__ = ('dtype', 'kind', 'name', 'type', 'op', 'value', 'ref', 'refid', 'reftype', 'arrow',
+    __slots__ = ('storage', 'dtype', 'kind', 'name', 'type', 'op', 'value', 'ref', 'refid', 'reftype', 'arrow',
                  'kids', 'line', 'id', 'parent', 'raw_kind', 'init_style', 'is_postfix',
                  'has_else', 'cast')
 
@@ -90,6 +90,7 @@ def _convert(j, tracker, parent=None):
     n.op = j.get('opcode')
     n.value = j.get('value')
     n.cast = j.get('castKind')
+    n.storage = (j.get('storageClass') or '') + ('+tls' if j.get('tls') else '')
     rd = j.get('referencedDecl') or {}
     n.ref = rd.get('name')
     n.refid = rd.get('id')
@@ -110,6 +111,7 @@ def _convert(j, tracker, parent=None):
             k.raw_kind = 'Null'
             k.name = k.type = k.dtype = k.op = k.value = k.ref = k.refid = k.reftype = None
             k.arrow = False
+            k.storage = ''
             k.line = tracker.line
             k.id = None
             k.parent = n
